@@ -11,11 +11,11 @@ use crate::chain::{act_from_json, act_json, ChainCfg, ChainSt, HopAct, Loc};
 use crate::driver::ReqCfg;
 use crate::engine::{explore, replay_trace, validate_traces, Limits, Report, Sys, Tier, Violation};
 
-pub const RULE_C13: &str = "original requests {GET, POST with Content-Length: 3, POST chunked, PUT, DELETE, HEAD, GET with two cookie and two authorization fields} on {http://a.test/p, https://a.test/p, http://a.test:8080/p}, each carrying authorization: S3CRET, cookie: k=ORIG, x-keep: 1; redirect-chain graph to depth 4 (state = hop + full fingerprint of the real Prepare flow + reference URI): at every hop every status {301,302,303,307,308} x every Location of a 16-entry pool (absolute http/https for hosts a.test/b.test/A.TEST with ports none/80/443/8080, scheme-relative, path-absolute, relative, ../, query-only) x policy {Never, SameHost} chosen independently per hop - all chains of length 1..4 incl. leave-and-return and scheme up/downgrades; in every state the head of the redirected request is written under two buffer schedules and read back. distinct = distinct chain states (flow fingerprint x reference URI x hop)";
+pub const RULE_C13: &str = "original requests {GET, POST with Content-Length: 3, POST chunked, PUT, DELETE, HEAD, GET with two cookie and two authorization fields} on {http://a.test/p, https://a.test/p, http://a.test:8080/p}, each carrying authorization: S3CRET, cookie: k=ORIG, x-keep: 1; redirect-chain graph to depth 4 (thorough: depth 5 and 24 Locations) (state = hop + full fingerprint of the real Prepare flow + reference URI): at every hop every status {301,302,303,307,308} x every Location of a 16-entry pool (absolute http/https for hosts a.test/b.test/A.TEST with ports none/80/443/8080, scheme-relative, path-absolute, relative, ../, query-only) x policy {Never, SameHost} chosen independently per hop - all chains of length 1..4 incl. leave-and-return and scheme up/downgrades; in every state the head of the redirected request is written under two buffer schedules and read back. distinct = distinct chain states (flow fingerprint x reference URI x hop)";
 pub const RULE_C14: &str = "GET requests on bases {http://a.test/p, http://a.test/d/e/f?x=1, https://a.test:8443/, http://a.test} ; redirect-chain graph to depth 3 (thorough 4): at every hop statuses {302,307} x a ~50-entry Location pool (absolute http/https with/without/default ports, scheme-relative, path-absolute, ./ ../ ../../.. relative, trailing slash, query-only, empty, each also with #fragment, 2-3 Location fields where the last wins) plus malformed values (missing, non-UTF-8, empty host, //, port 99999, unterminated IPv6 literal) x both policies; new flow's URI compared on components with an RFC 3986 section 5.2 reference that tracks its own current URI, and the request line / Host header of every state's head checked. distinct = distinct chain states";
 
-fn c13_cfgs() -> Vec<Arc<ChainCfg>> {
-    let locs: Vec<Loc> = [
+fn c13_cfgs(tier: Tier) -> Vec<Arc<ChainCfg>> {
+    let mut locs: Vec<Loc> = [
         "http://a.test/q",
         "https://a.test/q",
         "http://b.test/q",
@@ -36,6 +36,12 @@ fn c13_cfgs() -> Vec<Arc<ChainCfg>> {
     .iter()
     .map(|s| Loc::one(s))
     .collect();
+    if tier.thorough() {
+        for l in ["https://A.test:8080/q", "//A.TEST:443/q", "https://a.test", "http://b.test:80/../q", "./s/../t", "https://c.test/q", "//c.test:8080/", "/q?x=1#f"] {
+            locs.push(Loc::one(l));
+        }
+    }
+    let depth = if tier.thorough() { 5 } else { 4 };
     let mut out = Vec::new();
     for uri in ["http://a.test/p", "https://a.test/p", "http://a.test:8080/p"] {
         for (m, fr) in [("GET", ""), ("POST", "cl"), ("POST", "chunked"), ("PUT", "cl"), ("DELETE", ""), ("HEAD", "")] {
@@ -48,7 +54,7 @@ fn c13_cfgs() -> Vec<Arc<ChainCfg>> {
                 r = r.orig("transfer-encoding", "chunked");
                 body = b"abc".to_vec();
             }
-            out.push(Arc::new(ChainCfg { prop: "C13", req: r, body, statuses: vec![301, 302, 303, 307, 308], locs: locs.clone(), max_hops: 4, check_credentials: true, check_target: false }));
+            out.push(Arc::new(ChainCfg { prop: "C13", req: r, body, statuses: vec![301, 302, 303, 307, 308], locs: locs.clone(), max_hops: depth, check_credentials: true, check_target: false }));
         }
         // repeated credential fields in the original request
         let r = ReqCfg::new("GET", "1.1", uri).orig("cookie", "a=ORIG1").orig("authorization", "S3CRET").orig("x-keep", "1").orig("cookie", "b=ORIG2").orig("authorization", "S3CRET-2");
@@ -174,8 +180,8 @@ fn run_chains(cfgs: Vec<Arc<ChainCfg>>, max_states: u64) -> Report {
     rep
 }
 
-pub fn run_c13(_tier: Tier) -> Report {
-    let mut rep = run_chains(c13_cfgs(), 2_000_000);
+pub fn run_c13(tier: Tier) -> Report {
+    let mut rep = run_chains(c13_cfgs(tier), 2_000_000);
     rep.guard("some redirected request may keep Authorization", false);
     rep
 }
@@ -200,7 +206,8 @@ fn replay_chain(cfgs: Vec<Arc<ChainCfg>>, v: &Value) -> Result<Option<String>, S
 }
 
 pub fn replay_c13(v: &Value) -> Result<Option<String>, String> {
-    replay_chain(c13_cfgs(), v)
+    let tier = if v["tier"].as_str() == Some("thorough") { Tier::Thorough } else { Tier::Quick };
+    replay_chain(c13_cfgs(tier), v)
 }
 
 pub fn replay_c14(v: &Value) -> Result<Option<String>, String> {
